@@ -31,7 +31,7 @@ from checks import C07
 CHECKER = ("make -C coq Gates.vo Validate.vo ValidateProofs.vo Gen_C12.vo (coqc 8.16.1 kernel; vm_compute of prepare, the call-graph "
            "fixpoints and the predicates on the regenerated table) ; coqc Properties_C12.v (Print Assumptions)")
 BACKENDS = ["adf", "hdf5"]
-STATES = ["rich12", "unstr", "bare"]
+STATES = ["rich12", "unstr", "bare12"]
 MODES = {"read": 0, "write": 1, "modify": 2}
 JOBS = 4
 
@@ -408,7 +408,7 @@ def callees_of(fn, F, depth=3):
     return out
 
 
-def finding_key(fn, var, what, state, F, claims, bad_long=frozenset()):
+def finding_key(fn, var, what, state, F, claims, bad_long=frozenset(), doc="Write"):
     """the stable key of a failing case: <function>:<argument>:<class family>, or the key of the shared root cause"""
     fam = family(var["cls"])
     changed = any("changed" in w or "CHANGED" in w for w in what)
@@ -418,7 +418,7 @@ def finding_key(fn, var, what, state, F, claims, bad_long=frozenset()):
         return "cgi_check_strlen:string:name-empty"      # over-long names are refused cleanly: the validator runs, and lets "" through
     if fn == "cgio_new_node" and changed and not accepted:
         return "cgio_new_node:args:node-created-before-validation"     # create, then set label / dimensions / data, no roll-back
-    if changed and not accepted and fam != "name-empty" and family(var["cls"]) in ("index", "range", "enum", "datatype", "handle"):
+    if changed and not accepted and (fam in ("index", "range", "enum", "datatype", "handle") or doc == "Read"):
         if "cgi_get_zcoorGC" in cs:
             return "cgi_get_zcoorGC:Z:container-created-before-validation"
         if "cgi_get_particle_pcoorPC" in cs:
@@ -527,6 +527,7 @@ def run(ck):
     info, d = c12_validate.write_gen(repo=vlib.REPO, impl=vlib.IMPL)
     exe, entries, static_only = build_driver(d)
     E = {e["name"]: e for e in entries}
+    DOC = {e["fn"]: e["doc"] for e in entries}
     F = {}
     for f in d["functions"]:
         F.setdefault(f["name"], f)
@@ -599,15 +600,15 @@ def run(ck):
     # ---- the property's own oracle
     rng = ck.rng
     if big:
-        plan = [("adf", "rich12", "modify", 1.0, True, False), ("adf", "bare", "modify", 1.0, True, False), ("adf", "unstr", "modify", 1.0, True, False),
-                ("adf", "rich12", "read", 1.0, True, False), ("adf", "unstr", "read", 0.5, True, False), ("adf", "bare", "read", 0.5, True, False),
-                ("hdf5", "rich12", "modify", 0.55, True, False), ("hdf5", "bare", "modify", 1.0, True, False), ("hdf5", "unstr", "modify", 0.5, True, False),
+        plan = [("adf", "rich12", "modify", 1.0, True, False), ("adf", "bare12", "modify", 1.0, True, False), ("adf", "unstr", "modify", 1.0, True, False),
+                ("adf", "rich12", "read", 1.0, True, False), ("adf", "unstr", "read", 0.5, True, False), ("adf", "bare12", "read", 0.5, True, False),
+                ("hdf5", "rich12", "modify", 0.55, True, False), ("hdf5", "bare12", "modify", 1.0, True, False), ("hdf5", "unstr", "modify", 0.5, True, False),
                 ("hdf5", "rich12", "read", 0.25, True, False), ("hdf5", "unstr", "read", 0.25, False, False),
-                ("adf", "bare", "write", 1.0, True, False), ("hdf5", "bare", "write", 0.5, True, False)]
+                ("adf", "bare12", "write", 1.0, True, False), ("hdf5", "bare12", "write", 0.5, True, False)]
     else:
-        plan = [("adf", "rich12", "modify", 1.0, False, False), ("adf", "bare", "modify", 1.0, False, False),
-                ("hdf5", "rich12", "modify", 0.12, False, False), ("hdf5", "bare", "modify", 0.2, False, False),
-                ("adf", "unstr", "read", 0.2, False, False), ("adf", "bare", "write", 0.3, False, False)]
+        plan = [("adf", "rich12", "modify", 1.0, False, False), ("adf", "bare12", "modify", 1.0, False, False),
+                ("hdf5", "rich12", "modify", 0.12, False, False), ("hdf5", "bare12", "modify", 0.2, False, False),
+                ("adf", "unstr", "read", 0.2, False, False), ("adf", "bare12", "write", 0.3, False, False)]
     findings, observations, dyn = {}, {}, {"passes": [], "cases": 0, "sanitizer_reports": 0}
     valid_ok, rejected, raw = {}, {}, []
     for (b, st, mode, frac, allc, onlyv) in plan:
@@ -655,7 +656,7 @@ def run(ck):
                 raw.append((fn, var, w, st, wit))
     bad_long = frozenset((fn, var["param"]) for fn, var, w, st, wit in raw if family(var["cls"]) == "name-long")
     for fn, var, w, st, wit in raw:
-        key = finding_key(fn, var, w, st, F, claims, bad_long)
+        key = finding_key(fn, var, w, st, F, claims, bad_long, DOC.get(fn, "Write"))
         if key in findings:
             findings[key].setdefault("also", [])
             if len(findings[key]["also"]) < 12:
@@ -752,7 +753,7 @@ def run(ck):
                             if var["must"] == 0:
                                 w = [x for x in w if x.startswith("sanitizer")] + ([x for x in w if "hanged" in x or "CHANGED" in x] if c.get("st") not in (None, "0") else [])
                             if w:
-                                key = finding_key(e["fn"], var, w, st, F, claims)
+                                key = finding_key(e["fn"], var, w, st, F, claims, frozenset(), e["doc"])
                                 if ck.finding(key, {"level": "inv", "config": "%s/%s/%s" % (b, st, mode), "backend": b, "state": st, "mode": mode, "entry": c["name"],
                                                     "variant": c["v"], "desc": var["desc"], "what": w, "found_by": "widened search behind a broken obligation"}):
                                     found = True
